@@ -68,6 +68,8 @@ def run_history(h, ctx, farmer=None):
                         if op.get('bs') is not None: kw['batchsize'] = op['bs']
                         if op.get('nb') is not None: kw['num_batches'] = op['nb']
                         if op.get('cases'):
+                            if sw['combo_args']:      # parsed form: sow_cases does not parse its sub-grid
+                                kw['combos'] = tuple((a, [sw['values'][a][r] for r in sw['combo_order'][a]]) for a in sw['combo_args'])
                             crop.sow_cases(sw['case_args'], sweeps.py_cases(sw, op.get('spelling', 'tuple')), verbosity=0, **kw)
                         else:
                             crop.sow_combos(sweeps.py_combos(sw, 'dict'), cases=sweeps.py_cases(sw, 'dict'),
@@ -204,7 +206,11 @@ def num_batches_for(n, b):
 
 def gen_crop_sweep(rng, max_settings=40, cases=None):
     cases = rng.random() < 0.4 if cases is None else cases
-    if cases:
+    if cases and rng.random() < 0.35:
+        # a case list crossed with a sub-grid: sow_cases(..., combos=...) resp. sow_combos(..., cases=...)
+        sw = sweeps.gen_sweep(rng, n_case_args=(1, 2), n_cases=(1, 6), n_combo_args=(1, 2), n_vals=(1, 3), max_settings=max_settings)
+        sw['combo_args'] = sorted(sw['combo_args'])            # sow_cases keeps the given order of the sub-grid: give it sorted
+    elif cases:
         sw = sweeps.gen_sweep(rng, n_case_args=(1, 3), n_cases=(1, 12), n_combo_args=0, max_settings=max_settings)
     else:
         sw = sweeps.gen_sweep(rng, n_combo_args=(1, 3), n_vals=(1, 5), max_settings=max_settings)
